@@ -196,7 +196,8 @@ def incoherent_dedispersion(z, DM, /, *, ref_freq=None):
     delays = DM.sample_delay(z.channel_freqs, ref_freq, z.sample_rate)
     delays = delays.round().astype(np.int64)
 
-    crop_before = -min(0, delays[0], delays[-1])
+    # (the earliest channel is an edge channel, unless the band straddles 0 Hz)
+    crop_before = -min(0, int(delays.min())) if delays.size else 0
     delays += crop_before
     # (nothing is left when the delays differ by more than the length)
     N = max(0, len(z) - max(delays))
